@@ -136,6 +136,14 @@ class StackRef:
         self.box = self.base.box
         if self.box:
             self.low0, self.high0 = self.base.low.copy(), self.base.high.copy()
+        nS = spec["nS"]
+        if self.box:
+            self.obs_lo0 = np.concatenate([np.zeros(nS), [-np.inf]])
+            self.obs_hi0 = np.concatenate([np.ones(nS), [np.inf]])
+        elif spec.get("obs_kind", "onehot") == "onehot":
+            self.obs_lo0, self.obs_hi0 = np.zeros(nS), np.ones(nS)
+        else:
+            self.obs_lo0 = self.obs_hi0 = None
 
     # ---- action: outer -> inner
     def map_action(self, a):
@@ -184,14 +192,7 @@ class StackRef:
     # ---- observation: inner -> outer (returns value and the advertised bounds)
     def map_obs(self, o):
         o = np.asarray(o, np.float64) if not isinstance(o, (dict, tuple, int)) else o
-        nS = self.spec["nS"]
-        if self.box:
-            lo = np.concatenate([np.zeros(nS), [-np.inf]])
-            hi = np.concatenate([np.ones(nS), [np.inf]])
-        elif self.spec.get("obs_kind", "onehot") == "onehot":
-            lo, hi = np.zeros(nS), np.ones(nS)
-        else:
-            lo = hi = None
+        lo, hi = self.obs_lo0, self.obs_hi0
         for op in self.program:
             k = op[0]
             if k == "obs_affine":
@@ -228,6 +229,60 @@ class StackRef:
 
     def limits_outer_first(self):
         return list(reversed(self.limits))
+
+
+class GenericRef(StackRef):
+    """Reference maps (action / observation / reward / time limits) of a wrapper program over an
+    arbitrary base environment with Box or Discrete action space and Box observation space."""
+
+    def __init__(self, base_env, program):
+        from lerax.space import Box
+
+        self.program = program
+        self.spec = {"obs_kind": "onehot"}
+        self.limits = [int(op[1]) for op in program if op[0] == "time_limit"]
+        asp, osp = base_env.action_space, base_env.observation_space
+        self.box = isinstance(asp, Box)
+        if self.box:
+            self.low0, self.high0 = np.asarray(asp.low, np.float64), np.asarray(asp.high, np.float64)
+        self.obs_lo0, self.obs_hi0 = np.asarray(osp.low, np.float64), np.asarray(osp.high, np.float64)
+
+
+def build_on(env, program):
+    """Wrap an arbitrary base environment with a program (same op vocabulary as build())."""
+    for op in program:
+        k = op[0]
+        if k == "identity":
+            env = W.Identity(env)
+        elif k == "time_limit":
+            env = W.TimeLimit(env, int(op[1]))
+        elif k == "obs_affine":
+            a, b = float(op[1]), float(op[2])
+            sp = env.observation_space
+            lo, hi = a * sp.low + b, a * sp.high + b
+            if a < 0:
+                lo, hi = hi, lo
+            env = W.TransformObservation(env, Affine(jnp.asarray(a), jnp.asarray(b)), Box(lo, hi))
+        elif k == "obs_clip":
+            env = W.ClipObservation(env)
+        elif k == "obs_flatten":
+            env = W.FlattenObservation(env)
+        elif k == "obs_rescale":
+            env = W.RescaleObservation(env, jnp.asarray(float(op[1])), jnp.asarray(float(op[2])))
+        elif k == "act_perm":
+            perm = jnp.asarray(op[1], dtype=int)
+            env = W.TransformAction(env, Perm(perm), Discrete(len(op[1])), PermMask(perm))
+        elif k == "act_clip":
+            env = W.ClipAction(env)
+        elif k == "act_rescale":
+            env = W.RescaleAction(env, jnp.asarray(float(op[1])), jnp.asarray(float(op[2])))
+        elif k == "rew_affine":
+            env = W.TransformReward(env, Affine(jnp.asarray(float(op[1])), jnp.asarray(float(op[2]))))
+        elif k == "rew_clip":
+            env = W.ClipReward(env, float(op[1]), float(op[2]))
+        else:
+            raise ValueError(k)
+    return env
 
 
 def flatten(o):
